@@ -70,6 +70,18 @@ pub fn run(ctx: &Ctx, rep: &mut Report) {
                 sys.entries.push(Entry::simple(k, rng.range(0, nid - 1) as i16, rng.range(0, nid - 1) as i16, rng.range(0, 4000) as i16, rng.pick(&pool)));
             }
         }
+        // a numeral-POS compound with declared A/B units (a merged numeral must not inherit them)
+        if rng.chance(1, 2) {
+            let base = sys.entries.len();
+            for k in ["1", "2"] {
+                sys.entries.push(Entry::simple(k, rng.range(0, nid - 1) as i16, rng.range(0, nid - 1) as i16, rng.range(0, 2000) as i16, &pool[1]));
+            }
+            let mut e = Entry::simple("12", rng.range(0, nid - 1) as i16, rng.range(0, nid - 1) as i16, -800, &pool[1]);
+            e.mode = "C";
+            e.split_a = vec![crate::model::Ref { dic: 0, row: base, inline: false }, crate::model::Ref { dic: 0, row: base + 1, inline: false }];
+            e.split_b = e.split_a.clone();
+            sys.entries.push(e);
+        }
         // multi-character words over numeral characters with a non-numeral POS
         for k in ["七五三", "一万", "三千", "12", "千万"] {
             if rng.chance(1, 3) {
@@ -118,6 +130,12 @@ pub fn run(ctx: &Ctx, rep: &mut Report) {
             let rw = guard(|| tw.run(&text).map(|_| observe(&tw.list)));
             let rb = guard(|| tb.run(&text).map(|_| observe(&tb.list)));
             let (nw, nb) = (tw.nranges.clone(), tb.nranges.clone());
+            // the plugin-free analysis in mode C: a merged token is built from whole C-mode tokens
+            let mut tbc = Tok::new(&base, Mode::C);
+            let base_c: Option<(Vec<Obs>, Vec<(usize, usize)>)> = match guard(|| tbc.run(&text).map(|_| observe(&tbc.list))) {
+                Ok(Ok(o)) => Some((o, tbc.nranges.clone())),
+                _ => None,
+            };
             let (ow, ob) = match (rw, rb) {
                 (Ok(Ok(a)), Ok(Ok(b))) => (a, b),
                 (Err(p), _) | (_, Err(p)) => {
@@ -185,6 +203,23 @@ pub fn run(ctx: &Ctx, rep: &mut Report) {
                             && covered.iter().any(|b| b.wi_surface.chars().any(|c| cc.get_category_types(c).contains(CategoryType::KATAKANA)))
                     };
                     let numeric_like = covered.iter().all(|b| b.norm == "," || b.norm == "." || b.wi_surface.chars().all(|c| cc.get_category_types(c).intersects(CategoryType::NUMERIC | CategoryType::KANJINUMERIC)));
+                    if mode != Mode::C {
+                        if let Some((oc, nc)) = &base_c {
+                            let inside: Vec<usize> = (0..oc.len()).filter(|k| nc[*k].0 >= wb && nc[*k].1 <= we && nc[*k].1 > nc[*k].0).collect();
+                            let whole = !inside.is_empty() && nc[inside[0]].0 == wb && nc[*inside.last().unwrap()].1 == we;
+                            if !whole {
+                                rep.violation("merged_token_cuts_a_word", "path rewrite", &format!("mode {}: merged token {:?} (chars {}..{} of the normalised text) is not made of whole mode-C tokens of the plugin-free analysis", mode_name(mode), w.surface, wb, we), "", scen());
+                                failed = true;
+                                break;
+                            }
+                            let concat: String = inside.iter().map(|k| oc[*k].wi_surface.as_str()).collect();
+                            if w.wi_surface != concat {
+                                rep.violation("merged_surface", "path rewrite", &format!("mode {}: merged token has dictionary-side surface {:?}, the mode-C tokens it covers concatenate to {:?}", mode_name(mode), w.wi_surface, concat), "", scen());
+                                failed = true;
+                                break;
+                            }
+                        }
+                    }
                     if mode == Mode::C {
                         let concat: String = covered.iter().map(|b| b.wi_surface.as_str()).collect();
                         if w.wi_surface != concat {
